@@ -46,7 +46,7 @@ func (c09) Classes() []sim.Class {
 func (c09) Describe() sim.Description {
 	return sim.Description{
 		Level: "exploration",
-		Rule: "tape-generated histories of 8-30 operations over a small module family (A: exports a function, a function reference getter, a table and a call-through-the-table function; B: imports A's function and table; E: imports A's table and writes its own function into it with an element segment; C: private table and funcref global with set/call; D: imports A's function and pauses inside a host function between two calls of it), in one runtime or two runtimes sharing a CompilationCache: " +
+		Rule: "tape-generated histories of 8-30 operations over a small module family (A: exports a function, a function reference getter, a table and a call-through-the-table function; B: imports A's functions, table and memory (which it grows, then reads through A's code); E: imports A's table and writes its own function into it with an element segment; C: private table and funcref global with set/call; D: imports A's function and pauses inside a host function between two calls of it), in one runtime or two runtimes sharing a CompilationCache: " +
 			"instantiate (Instantiate = compiled module closed with the instance, or CompileModule+InstantiateModule), call, pass a function reference A -> host -> C (table slot or global), close instance, close compiled module, close cache, drop the harness's own Go references, force GC (1-3 cycles, finalizers drained), with a D call optionally in progress (parked in the host function) while the others happen. " +
 			"Oracle: a twin runtime receives the same history without the close/drop/GC operations; every call on a still-open instance must return the twin's result or an ordinary error; the process must survive (worker death = violation). Steps that call through a reference whose definer is dropped and has no live importer are the recorded known finding: generated, counted, not executed here; executed in the sacrificial class dangling-reference. " +
 			"Non-trivial: at least one forced GC happened after a close/drop and a later call went through an import edge, an exported table, a held reference or a call in progress; distinct = distinct operation-kind sequences",
@@ -75,7 +75,11 @@ func modA(k int32) []byte {
 	m.Tables = []wasmb.Table{{Elem: wasmb.FuncRef, Lim: wasmb.Limits{Min: 4}}}
 	m.Elems = []wasmb.Elem{{Mode: 0, Offset: wasmb.ConstI32(0), Funcs: []uint32{inc}}, {Mode: 1, Funcs: []uint32{inc}}}
 	m.Exports = append(m.Exports, wasmb.Export{Name: "tab", Kind: wasmb.KindTable, Idx: 0})
-	m.Mem = &wasmb.Limits{Min: 1}
+	// peek(addr): the exporter's view of its memory, which importers share and may grow after the
+	// exporter is closed
+	m.AddFunc(i32, i32, nil, (&wasmb.Code{}).LocalGet(0).I32Load(0).B, "peek")
+	m.Mem = &wasmb.Limits{Min: 1, Max: 12, HasMax: true}
+	m.Exports = append(m.Exports, wasmb.Export{Name: "mem", Kind: wasmb.KindMemory, Idx: 0})
 	m.Datas = []wasmb.Data{{Passive: true, Bytes: []byte{byte(k), 0, 0, 0}}}
 	m.DataCount = true
 	return m.Encode()
@@ -87,7 +91,14 @@ func modB() []byte {
 	inc := m.ImportFunc("a", "inc", i32, i32)
 	seg := m.ImportFunc("a", "seg", i32, i32)
 	m.Imports = append(m.Imports, wasmb.Import{Module: "a", Name: "tab", Kind: wasmb.KindTable, Table: wasmb.Table{Elem: wasmb.FuncRef, Lim: wasmb.Limits{Min: 4}}})
+	peek := m.ImportFunc("a", "peek", i32, i32)
+	m.Imports = append(m.Imports, wasmb.Import{Module: "a", Name: "mem", Kind: wasmb.KindMemory, Mem: wasmb.Limits{Min: 1}})
 	t := m.AddType(i32, i32)
+	// memchk(x): grow the imported memory by a page, write x through this module's own code, read it
+	// back through the exporter's code: both must see the same (possibly relocated) memory
+	m.AddFunc(i32, i32, nil, (&wasmb.Code{}).I32Const(1).MemoryGrow().Drop().
+		I32Const(128).LocalGet(0).I32Store(0).I32Const(128).Call(peek).
+		MemorySize().I32Const(1000).I32Mul().I32Add().B, "memchk")
 	m.AddFunc(i32, i32, nil, (&wasmb.Code{}).LocalGet(0).Call(inc).Call(inc).B, "twice")
 	m.AddFunc(i32, i32, nil, (&wasmb.Code{}).LocalGet(0).Call(seg).B, "viaseg")
 	m.AddFunc(i32, i32, nil, (&wasmb.Code{}).LocalGet(0).I32Const(0).CallIndirect(t, 0).B, "viatab")
@@ -428,7 +439,7 @@ func (r *runner) step(shared bool) {
 		case 'E':
 			r.compareCall(fmt.Sprintf("call #%d E.mul(%d)", i, x), i, "mul", x)
 		case 'B':
-			fn := tape.Pick(t, []string{"twice", "viatab", "viaseg"})
+			fn := tape.Pick(t, []string{"twice", "viatab", "viaseg", "memchk"})
 			r.compareCall(fmt.Sprintf("call #%d B.%s(%d) [imports from #%d]", i, fn, x, in.definer), i, fn, x)
 		case 'C':
 			slot := t.Choose(3)
